@@ -44,6 +44,18 @@ CLAIMED = {
  "C16": ("dominance of prepare/execute/global-store by the no-error edges of parse and compile (GATE), parameter-use check that compile clones its namespace (COMPILE-PURE), argument-provenance check over all compile callers (CHECK-AGREE)",
          "Structural necessary conditions: nothing is prepared, stored into the interpreter or executed unless both parsing and compilation succeeded; compilation mutates only a clone of the namespace; evaluation and the static check compile against the same builtin and namespace views. Equality of the reported error sets for all programs is not decided.",
          "trusts go/ssa"),
+ "C08": ("sibling agreement between Equal and Hash implementations: receiver-field subset check per type (EH-PAIR), per-case checks inside vals.Hash - zero normalisation, commutative and identical map/field-map combiners (EH-CASE), case-order consistency (EH-ORDER)",
+         "Structural necessary condition for 'eq implies same hash', type by type: fields hashed are fields compared, address hashes only with identity equality, +0/-0 hash alike, eq maps and field maps hash alike regardless of iteration order. That the hash map honours hashes is C07's business and is not decided here.",
+         "trusts go/ssa; reflect-based equality (DeepEqual) counts as comparing all fields"),
+ "C09": ("agreement of the number-representation sets across the comparison machinery's type switches (NUMSET), detection of lossy conversions on the comparison path (CMP-DOMAINS)",
+         "Two structural necessary conditions of a transitive total preorder: all number switches range over exactly {int, *big.Int, *big.Rat, float64}; no exact operand is ordered through float64 while exact pairs are ordered exactly (known finding on today's tree, documented behaviour). Reflexivity, symmetry, NaN placement and list order are not decided.",
+         "trusts go/ssa"),
+ "C10": ("who-may-sort rule (STABLE), dominance of outputs by the comparator-error latch and latch-on-every-failing-exit (LATCH), paired swap check (SWAP-PAIR)",
+         "Structural necessary conditions for stability and failure atomicity: only stable sorts are applied, nothing is output unless the comparator reported no error after sorting, every failing comparator exit sets the latch, keys are swapped with values. Sortedness and permutation are not decided.",
+         "trusts go/ssa"),
+ "C11": ("def-use rule that big numbers pass a normaliser before becoming Elvish values (NORM, GOFN-NORM), taint-to-sink rule for zero divisors of big-number operations (EXACT-ZERO)",
+         "Structural necessary conditions for canonical form and for 'no exact result raises an exception': no *big.Int/*big.Rat is output or stored in a container un-normalised, goFn.Call normalises every builtin return value, every zero-panicking big-number operation reached by script numbers is guarded by a non-zero test or audited. Numeric correctness is not decided.",
+         "trusts go/ssa; EXACT-ZERO shares the audit table of C17"),
  "C40": ("ownership pairing for opened descriptors (OPEN-OWNED), must-call rule for returned cleanup functions on all success paths (CLEANUP-CALLED), close-before-overwrite dominance (REPLACE-CLOSES), spawn/join pairing (JOINED)",
          "Structural necessary conditions: every descriptor the evaluator opens is closed in place or recorded as owned by a form whose epilogue closes it; every cleanup function of a capture/pipe/file port is called or handed on on every path; a redirection closes the port it replaces; every goroutine is joined. Descriptor counts and the os.Pipe-failure path are not decided.",
          "trusts go/ssa; audited: process-lifetime /dev/null handle and black-hole drain"),
